@@ -49,10 +49,14 @@ def gen_model(rng, modname, profile="orm"):
                 kind = rng.choice(RELS + (["self_list"] if allow_self_list else []))
             fname = ("_" if kind == "private" else "") + f"f{i}_{j}"
             target = None
+            if profile == "diagram" and kind == "type" and rng.random() < 0.4:
+                kind = "opt_type"       # a type-valued field that may be missing
+            if profile == "diagram" and kind in ("list_str", "list_int", "set_str", "set_int") and rng.random() < 0.5:
+                kind = rng.choice(["list_opt_int", "tuple_str"])    # elements that may be missing, a tuple of any length
             if profile == "diagram" and kind in ("list_ref", "opt_ref") and rng.random() < 0.3:
                 # two wrappers: a collection that may be missing, a collection of elements that may be missing
                 kind = "opt_list_ref" if kind == "opt_ref" else "list_opt_ref"
-            if kind in ("ref", "opt_ref", "list_ref", "set_ref", "type", "opt_list_ref", "list_opt_ref"):
+            if kind in ("ref", "opt_ref", "list_ref", "set_ref", "type", "opt_type", "opt_list_ref", "list_opt_ref"):
                 target = rng.choice(names)
                 if kind in ("list_ref", "set_ref") and not allow_self_list:
                     # a collection of the class's own type is the listed self-list finding: avoid it here
@@ -161,6 +165,12 @@ def _annotation(f, quote=False):
         return f"List[Optional[{t}]]", "field(default_factory=list)"
     if k == "type":
         return f"Type[{t}]", "None"
+    if k == "opt_type":
+        return f"Optional[Type[{t}]]", "None"
+    if k == "list_opt_int":
+        return "List[Optional[int]]", "field(default_factory=list)"
+    if k == "tuple_str":
+        return "Tuple[str, ...]", "()"
     raise ValueError(k)
 
 
@@ -169,7 +179,7 @@ ENUM_MODULE_SOURCE = "from enum import Enum\n\n\nclass Color(Enum):\n    R = 'r'
 
 def render(spec, postponed=True):
     lines = (["from __future__ import annotations"] if postponed else []) + ["from dataclasses import dataclass, field",
-             "from typing_extensions import List, Optional, Set, Type, Union", "from enum import Enum",
+             "from typing_extensions import List, Optional, Set, Tuple, Type, Union", "from enum import Enum",
              "from datetime import datetime", "", "", "class Color(Enum):", "    R = 'r'", "    G = 'g'", "    B = 'b'", "", ""]
     if spec.get("enum_module"):
         # the enum lives in a module of its own that holds no mapped class (ENUM_MODULE_SOURCE, written next to the model)
@@ -246,7 +256,7 @@ def render_split(spec):
         other = "b" if s_ == "a" else "a"
         names_other = [n for n, sd in side.items() if sd == other]
         lines = ["from __future__ import annotations", "from dataclasses import dataclass, field",
-                 "from typing_extensions import List, Optional, Set, Type, Union, TYPE_CHECKING", "from enum import Enum",
+                 "from typing_extensions import List, Optional, Set, Tuple, Type, Union, TYPE_CHECKING", "from enum import Enum",
                  "from datetime import datetime", f"from {spec['module']}_enum import Color", ""]
         if names_other:
             lines += ["if TYPE_CHECKING:", f"    from {spec['module']}_{other} import " + ", ".join(names_other), ""]
